@@ -307,13 +307,19 @@ type tDup struct {
 	C int
 }
 
+type tPtrAny struct {
+	P *any
+	L []*any `json:"l,omitempty"`
+}
+
 type tWeirdTags struct {
-	Area int `json:"m\u00b2"` // a non-decimal Unicode number in the tag name: encoding/json ignores the name
-	Half int `json:"x\u00bd"`
-	Q    int `json:"a\\b"`
-	R    int `json:"with space"`
-	S    int `json:"é"`
-	T    int `json:"a,b"`
+	Owner int `json:"owner's"` // a single quote is reserved: encoding/json ignores the name
+	Area  int `json:"m\u00b2"` // a non-decimal Unicode number in the tag name: encoding/json ignores the name
+	Half  int `json:"x\u00bd"`
+	Q     int `json:"a\\b"`
+	R     int `json:"with space"`
+	S     int `json:"é"`
+	T     int `json:"a,b"`
 }
 
 type tBad struct {
@@ -371,7 +377,7 @@ func TypeFamily() []TypeCase {
 		tc[tEmbedValue]("tEmbedValue"), tc[tEmbedPtr]("tEmbedPtr"), tc[tEmbedShadow]("tEmbedShadow"), tc[tEmbedAmbiguous]("tEmbedAmbiguous"), tc[tEmbedTagged]("tEmbedTagged"), tc[tEmbedScalar]("tEmbedScalar"), tc[tEmbedTaggedExported]("tEmbedTaggedExported"),
 		tc[tEmbedTaggedThenPlain]("tEmbedTaggedThenPlain"), tc[tEmbedScalarThenPlain]("tEmbedScalarThenPlain"), tc[tEmbedDeepTagged]("tEmbedDeepTagged"), tc[tEmbedDeepPlain]("tEmbedDeepPlain"), tc[tEmbedPlainThenTagged]("tEmbedPlainThenTagged"),
 		tc[tNameShallowFirst]("tNameShallowFirst"), tc[tNameShallowLast]("tNameShallowLast"), tc[tNameTaggedWins]("tNameTaggedWins"), tc[tNameDeepConflict]("tNameDeepConflict"), tc[tNameShadowOmit]("tNameShadowOmit"), tc[tEmbedUnexportedScalar]("tEmbedUnexportedScalar"),
-		tc[tNameTagSameAsField]("tNameTagSameAsField"), tc[tNameTwoEmbTagged]("tNameTwoEmbTagged"), tc[tNameTwoEmbTagSameAsField]("tNameTwoEmbTagSameAsField"), tc[tEmbedPtrTaggedUnexported]("tEmbedPtrTaggedUnexported"), tc[tWideSparse]("tWideSparse"),
+		tc[tNameTagSameAsField]("tNameTagSameAsField"), tc[tNameTwoEmbTagged]("tNameTwoEmbTagged"), tc[tNameTwoEmbTagSameAsField]("tNameTwoEmbTagSameAsField"), tc[tEmbedPtrTaggedUnexported]("tEmbedPtrTaggedUnexported"), tc[tWideSparse]("tWideSparse"), tc[tPtrAny]("tPtrAny"), tc[*any]("*any"), tc[map[string]*any]("map[string]*any"),
 		tc[tNamed]("tNamed"), tc[tNamedInt]("tNamedInt"), tc[tNamedSlice]("tNamedSlice"), tc[tDup]("tDup"), tc[tWeirdTags]("tWeirdTags"),
 	}
 	std := tc[tStd]("tStd")
